@@ -339,6 +339,11 @@ func (s *socket) Close() error {
 }
 
 func (s *socket) AddPipe(pp protocol.Pipe) error {
+	s.Lock()
+	defer s.Unlock()
+	if s.closed {
+		return protocol.ErrClosed
+	}
 	p := &pipe{
 		p:      pp,
 		s:      s,
@@ -346,11 +351,6 @@ func (s *socket) AddPipe(pp protocol.Pipe) error {
 		sendQ:  make(chan *protocol.Message, s.sendQLen),
 	}
 	pp.SetPrivate(p)
-	s.Lock()
-	defer s.Unlock()
-	if s.closed {
-		return protocol.ErrClosed
-	}
 	s.pipes[pp.ID()] = p
 	go p.sender()
 	go p.receiver()
